@@ -814,6 +814,9 @@ class CSSCalc(CSSFunction):
     cssText = property(lambda self: css_parser.ser.do_css_CSSCalc(self),
                        _setCssText, doc="String representation of calc function.")
 
+    value = property(lambda self: css_parser.ser.do_css_CSSCalc(self, True),
+                     doc='Same as cssText but without comments.')
+
     type = property(lambda self: Value.CALC,
                     doc="Type is fixed to Value.CALC.")
 
